@@ -33,17 +33,25 @@ ATOMS = {
     'nrx': ('name !=~ ^a', 'name =~ ^a'), 'arith': ('size + 1 > 10', None), 'len': ('length(name) = 2', None),
     'ene': ('name !== x', 'name === x'), 'ngt': ('size not > 10', 'size > 10'),
     'isfile': ('is_file != true', None),
+    # a pattern operand computed per entry (the pattern differs from row to row)
+    'dyn': ("name like concat(substr(name, 1, 1), '%x')", None), 'dynall': ("path like concat('%/', name)", None),
+    'dynext': ("name like concat('%', ext)", None), 'dynrx': ("name =~ concat('^', substr(name, 1, 1), '.*t$')", None),
+    # === takes wildcards literally, so its negation must too
+    'eeqw': ("name === 'a?'", None), 'enew': ("name !== 'a*'", "name === 'a*'"),
+    'issym': ('is_symlink', None), 'big': ('size > 100', None), 'symeq': ('is_symlink = false', None),
 }
 
 TUPLES = {
     'quick': [('gt', 'like', 'isdir', 'hl'), ('ge', 'glob', 'bare', 'btw'),
               ('eq', 'eeq', 'le', 'like'), ('nlike', 'gt', 'nbtw', 'bare'), ('lt', 'ne', 'rx', 'hl'),
-              ('arith', 'len', 'hlge', 'glob'), ('le', 'nrx', 'ene', 'eq')],
+              ('arith', 'len', 'hlge', 'glob'), ('le', 'nrx', 'ene', 'eq'), ('dyn', 'gt', 'eeqw', 'dynrx'), ('dynall', 'glob', 'dynext', 'lt'),
+              ('issym', 'big', 'symeq', 'like', 'symlinks')],
 }
 TUPLES['thorough'] = TUPLES['quick'] + [('btw', 'rx', 'hl', 'lt'),
     ('gt', 'ge', 'eq', 'lt', 'le'), ('btw', 'nbtw', 'like', 'nlike', 'bare'), ('isdir', 'bare', 'isfile', 'hl', 'hlge'),
     ('rx', 'nrx', 'eeq', 'ene', 'glob'), ('ngt', 'gt', 'le', 'arith', 'len'), ('ne', 'eq', 'btw', 'glob', 'hl'),
-    ('like', 'rx', 'glob', 'eeq', 'len'), ('lt', 'gt', 'isdir', 'like', 'hl'),
+    ('like', 'rx', 'glob', 'eeq', 'len'), ('lt', 'gt', 'isdir', 'like', 'hl'), ('enew', 'eeqw', 'dyn', 'bare', 'ne'),
+    ('big', 'issym', 'dynrx', 'symeq', 'hl', 'symlinks'),
 ]
 KMAX = {'quick': 3, 'thorough': 4}
 CHUNK = 150
@@ -66,6 +74,12 @@ def the_tree():
     t['ax'] = D({})      # a directory whose name matches the name atoms
     t['x'] = F(10)
     t['a10.txt'] = F(10)
+    t['a?'] = F(10)
+    t['a*'] = F(11)
+    t['s20']['c']['big'] = F(500)
+    t['lbig'] = {'t': 'l', 'to': 's20/big'}
+    t['lsmall'] = {'t': 'l', 'to': 's03/x'}
+    t['ldang'] = {'t': 'l', 'to': 'nowhere-at-all-this-target-text-is-longer-than-one-hundred-bytes-so-that-the-link-itself-is-big-too-xxxxxxxxxxxxxxx'}
     return t
 
 
@@ -197,15 +211,16 @@ def nnodes(f):
 
 def groups(tier, seed):
     for tup in TUPLES[tier]:
-        atoms = [ATOMS[k][0] for k in tup]
+        atoms = [ATOMS[k][0] for k in tup if k != 'symlinks']
         seen = set()
         pending = []
         idx = 0
-        for k in range(0, KMAX[tier] + 1):
+        kmax = KMAX[tier] if not (tier == 'quick' and TUPLES[tier].index(tup) >= 8) else 2
+        for k in range(0, kmax + 1):
             allmax = 2 if tier == 'quick' or TUPLES[tier].index(tup) >= 3 else 3
             modes = ['all'] if k <= allmax else ['seq']
             for mode in modes:
-                for f in formulas(k, mode, len(tup)):
+                for f in formulas(k, mode, len(atoms)):
                     styles = (0, 1, 2) if k <= 1 else (idx % 3,) if tier == 'quick' else (0, 1 + idx % 2)
                     idx += 1
                     for st in styles:
@@ -227,17 +242,20 @@ def single(case):
 
 def eval_group(env, group, tier):
     tup = group['atoms']
+    rootopt = ''
+    if tup and tup[-1] == 'symlinks':
+        rootopt, tup = ' symlinks', tup[:-1]
     atoms = [ATOMS[k][0] for k in tup]
     root = env.newdir('c3')
     core.materialise(root, the_tree())
     outs = []
     try:
         def q(where):
-            argv = ['path from . ' + ('where ' + where + ' ' if where else '') + 'into list']
+            argv = ['path from .' + rootopt + ' ' + ('where ' + where + ' ' if where else '') + 'into list']
             return env.run(argv, cwd=root), argv
         o, _ = q(None)
         universe = frozenset(o.rows())
-        if o.rc != 0 or len(universe) != 41:
+        if o.rc != 0 or len(universe) != len(list(core.walk_tree(the_tree()))):
             raise core.MachineryError('C03 universe query failed: %r' % o.brief())
         sets = []
         for k in tup:
@@ -250,7 +268,7 @@ def eval_group(env, group, tier):
         for f, style, k in group['forms']:
             text = render(f, style, atoms)
             o, argv = q(text)
-            case = {'atoms': tup, 'f': f, 'style': style, 'k': k, 'query': argv[0]}
+            case = {'atoms': group['atoms'], 'f': f, 'style': style, 'k': k, 'query': argv[0]}
             exp = evaluate(f, sets, universe)
             res = {'case': case, 'layer': 'k=%d' % k, 'trans': nnodes(f), 'nt': 0 < len(exp) < len(universe)}
             rows = o.rows()
